@@ -56,6 +56,20 @@ def gen_py(ode, backend="numpy", schemes=None, remove_unused=False, delta=1e-8, 
     )
 
 
+def gen_py_generator(ode, backend="numpy", rhs_kwargs=None, monitor_kwargs=None, remove_unused=False):
+    """Module assembled from the code generator's own methods (as get_code does), with options of rhs / monitor_values
+    that get_code does not expose (use_cse, order)."""
+    quiet()
+    from gotranx.codegen import PythonCodeGenerator, JaxCodeGenerator, PythonFormat
+
+    cls = PythonCodeGenerator if backend == "numpy" else JaxCodeGenerator
+    cg = cls(ode, format=PythonFormat.none, remove_unused=remove_unused)
+    comp = [cg.imports(), cg.parameter_index(), cg.state_index(), cg.monitor_index(), cg.missing_index(),
+            cg.initial_parameter_values(), cg.initial_state_values(), cg.rhs(**(rhs_kwargs or {})),
+            cg.monitor_values(**(monitor_kwargs or {}))]
+    return "\n".join(comp)
+
+
 def gen_c(ode, schemes=None, remove_unused=False, delta=1e-8, stiff_states=None, missing_values=None):
     quiet()
     from gotranx.cli import gotran2c
